@@ -1,7 +1,7 @@
 """C11 — three-phase power flow consistent with the symmetric power flow (DESIGN §5, Phase3*.tla).
 
 TLC enumerates the configurations (Phase3.tla: vector group x topology x element placement / connection / level pattern /
-modifier) and dumps them with the wiring (`plant`) and element table values (`rows`) to build; every dumped final state
+modifier, x busbar section behind a closed / open bus-bus switch, x ext_grid table) and dumps them with the wiring (`plant`) and element table values (`rows`) to build; every dumped final state
 is instantiated on the template network, solved by runpp_3ph and runpp, and the logged numbers are judged by TLC with
 the invariants of Phase3Obs.tla.  Python never compares results.
 """
@@ -18,19 +18,30 @@ from ..tla import MachineryError, SPEC_DIR, jsonable, run_tlc
 
 # ---- harness-owned numeric tables (documented next to the spec: Phase3Def.tla header) -------------------------------
 # one LEVEL unit of an element at bus b (micro-MW / micro-Mvar; even, because scaling 0.5 must stay on the integer grid)
-UNITP = [20000, 20000, 20000, 4000]
-UNITQ = [6000, 6000, 6000, 1200]
+UNIT = {"mv": (20000, 6000), "lv": (4000, 1200)}        # by the voltage level of the bus (plant["level"])
+VN_KV = {"mv": 20.0, "lv": 0.4}
+# ext_grid row k (table order): set point and short-circuit power; different per row so that every ext_grid carries a
+# different power
+EG_VM = lambda k: 1.02 - 0.0003 * k       # noqa: E731
+EG_VA = lambda k: 0.004 * k               # noqa: E731
+EG_SSC = lambda k: 1000.0 - 100.0 * k     # noqa: E731
 SHIFT = {"Dyn": 150.0, "YNyn": 0.0, "Yzn": 150.0, "Yy": 0.0, "YNd": 150.0}     # shift_degree used with a vector group
 PH = "abc"
 TABLE = {"load": "load", "sgen": "sgen", "asymmetric_load": "asymmetric_load", "asymmetric_sgen": "asymmetric_sgen"}
 
 TIER_CONSTANTS = {
     "quick": {"NSlots": "2", "ElemBuses": "{1, 2, 4}", "Pats": '{"bal", "unb"}', "Mods": '{"none"}',
-              "VGs": '{"Dyn", "YNyn", "Yzn"}', "Topos": '{"radial", "cut"}'},
+              "VGs": '{"Dyn", "YNyn", "Yzn"}', "Topos": '{"radial", "cut"}',
+              "Cpls": '{"c4", "c2", "o4"}', "EgSets": '{"g13", "g31"}'},
     "thorough": {"NSlots": "2", "ElemBuses": "{1, 2, 4}", "Pats": '{"bal", "unb", "zero"}',
                  "Mods": '{"none", "oos", "half"}', "VGs": '{"Dyn", "YNyn", "Yzn", "Yy", "YNd"}',
-                 "Topos": '{"radial", "ring", "cut", "toff", "notrafo"}'},
+                 "Topos": '{"radial", "ring", "cut", "toff", "notrafo"}',
+                 "Cpls": '{"c4", "c2", "o4", "o2", "c3"}', "EgSets": '{"g13", "g31", "g21", "g3x1", "g31x", "g321"}'},
 }
+
+# quick tier: every configuration of family A is instantiated, of the families B / C (see family()) a seeded sample of
+# this many configurations per (busbar-section arrangement | ext_grid table); the thorough tier instantiates all
+QUICK_PER_GROUP = {"B": 80, "C": 90}
 
 _BASE = {}
 
@@ -38,12 +49,15 @@ _BASE = {}
 def base_net(vg, plant):
     """Template of Phase3Def.tla for one (vector group, topology); wiring and flags come from the model's `plant`."""
     import pandapower as pp
-    key = (vg, tuple(plant["lines"]), plant["trafo"])
+    key = (vg, tuple(plant["lines"]), plant["trafo"], tuple(plant["level"]),
+           tuple((w["a"], w["b"], w["closed"]) for w in plant["sw"]), tuple((g["bus"], g["ins"]) for g in plant["egs"]))
     if key in _BASE:
         return _BASE[key]
     net = pp.create_empty_network()
-    b = [pp.create_bus(net, 20.0), pp.create_bus(net, 20.0), pp.create_bus(net, 20.0), pp.create_bus(net, 0.4)]
-    pp.create_ext_grid(net, b[0], vm_pu=1.02, s_sc_max_mva=1000.0, rx_max=0.1, r0x0_max=0.1, x0x_max=1.0)
+    b = [pp.create_bus(net, VN_KV[lv]) for lv in plant["level"]]
+    for k, g in enumerate(plant["egs"]):
+        pp.create_ext_grid(net, b[g["bus"] - 1], vm_pu=EG_VM(k), va_degree=EG_VA(k), s_sc_max_mva=EG_SSC(k), rx_max=0.1,
+                           r0x0_max=0.1, x0x_max=1.0, in_service=bool(g["ins"]))
     for (f, t), ins in zip(plant["ends"], plant["lines"]):
         pp.create_line_from_parameters(net, b[f - 1], b[t - 1], 2.0, 0.12, 0.11, 10.0, 0.5, r0_ohm_per_km=0.4,
                                        x0_ohm_per_km=0.4, c0_nf_per_km=5.0, in_service=bool(ins))
@@ -53,6 +67,8 @@ def base_net(vg, plant):
             vk_percent=6.0, pfe_kw=1.0, i0_percent=0.1, shift_degree=SHIFT[vg], vector_group=vg, vk0_percent=6.0,
             vkr0_percent=1.0, mag0_percent=100.0, mag0_rx=0.0, si0_hv_partial=0.9,
             in_service=plant["trafo"] == "on")
+    for w in plant["sw"]:
+        pp.create_switch(net, b[w["a"] - 1], b[w["b"] - 1], et="b", closed=bool(w["closed"]))
     _BASE[key] = net
     return net
 
@@ -87,7 +103,7 @@ def _tri(df, row, pat):
 def project3(net, where, ok):
     nan3 = [NAN, NAN, NAN]
     if not ok:
-        return {"bus": [], "line": [], "trafo": [], "eg": {"p": nan3, "q": nan3}, "elem": []}
+        return {"bus": [], "line": [], "trafo": [], "eg": [], "elem": []}
     rb, rl, rt, re_ = net.res_bus_3ph, net.res_line_3ph, net.res_trafo_3ph, net.res_ext_grid_3ph
     out = {"bus": [{"vm": _tri(rb, b, "vm_%s_pu"), "va": _tri(rb, b, "va_%s_degree"), "p": _tri(rb, b, "p_%s_mw"),
                     "q": _tri(rb, b, "q_%s_mvar")} for b in net.bus.index],
@@ -95,7 +111,8 @@ def project3(net, where, ok):
                      "t": {"p": _tri(rl, l, "p_%s_to_mw"), "q": _tri(rl, l, "q_%s_to_mvar")}} for l in net.line.index],
            "trafo": [{"hv": {"p": _tri(rt, t, "p_%s_hv_mw"), "q": _tri(rt, t, "q_%s_hv_mvar")},
                       "lv": {"p": _tri(rt, t, "p_%s_lv_mw"), "q": _tri(rt, t, "q_%s_lv_mvar")}} for t in net.trafo.index],
-           "eg": {"p": _tri(re_, 0, "p_%s_mw"), "q": _tri(re_, 0, "q_%s_mvar")}, "elem": []}
+           "eg": [{"p": _tri(re_, g, "p_%s_mw"), "q": _tri(re_, g, "q_%s_mvar")} for g in net.ext_grid.index],
+           "elem": []}
     for w in where:
         if w is None:
             out["elem"].append({"p": [0, 0, 0], "q": [0, 0, 0], "pt": 0, "qt": 0})
@@ -110,7 +127,7 @@ def project3(net, where, ok):
 
 def project1(net, where, ok):
     if not ok:
-        return {"bus": [], "line": [], "trafo": [], "eg": {"p": NAN, "q": NAN}, "elem": []}
+        return {"bus": [], "line": [], "trafo": [], "eg": [], "elem": []}
     rb, rl, rt, re_ = net.res_bus, net.res_line, net.res_trafo, net.res_ext_grid
     out = {"bus": [{"vm": fx(rb.at[b, "vm_pu"]), "va": fx(rb.at[b, "va_degree"]), "p": fx(rb.at[b, "p_mw"]),
                     "q": fx(rb.at[b, "q_mvar"])} for b in net.bus.index],
@@ -118,7 +135,7 @@ def project1(net, where, ok):
                      "t": {"p": fx(rl.at[l, "p_to_mw"]), "q": fx(rl.at[l, "q_to_mvar"])}} for l in net.line.index],
            "trafo": [{"hv": {"p": fx(rt.at[t, "p_hv_mw"]), "q": fx(rt.at[t, "q_hv_mvar"])},
                       "lv": {"p": fx(rt.at[t, "p_lv_mw"]), "q": fx(rt.at[t, "q_lv_mvar"])}} for t in net.trafo.index],
-           "eg": {"p": fx(re_.at[0, "p_mw"]), "q": fx(re_.at[0, "q_mvar"])}, "elem": []}
+           "eg": [{"p": fx(re_.at[g, "p_mw"]), "q": fx(re_.at[g, "q_mvar"])} for g in net.ext_grid.index], "elem": []}
     for w in where:
         if w is None:
             out["elem"].append({"pt": 0, "qt": 0})
@@ -133,14 +150,16 @@ def _residual(net, case, where):
     non-slack buses where the model requires per-phase balance; documents the margin of NodalTol in Phase3Obs.tla."""
     worst = 0.0
     pl = case["plant"]
+    node = lambda x: pl["node"][x - 1]         # noqa: E731
+    slack_nodes = {node(g["bus"]) for g in pl["egs"] if g["ins"]}
     for b in case["meta"]["perphase"]:
-        if b == 1:
+        if node(b) != b or b in slack_nodes:
             continue
         for ph in PH:
             for col, q in (("p_%s%s_mw", False), ("q_%s%s_mvar", True)):
                 s = 0.0
                 for e, w in zip(case["cfg"]["elems"], where):
-                    if w is None or e["bus"] != b:
+                    if w is None or node(e["bus"]) != b:
                         continue
                     sign = -1.0 if w[0].endswith("sgen") else 1.0
                     df = net["res_%s_3ph" % w[0]]
@@ -149,13 +168,13 @@ def _residual(net, case, where):
                     else:
                         s += sign * float(df.at[w[1], "q_mvar" if q else "p_mw"]) / 3.0
                 for l, ((f, t), ins) in enumerate(zip(pl["ends"], pl["lines"])):
-                    if ins and f == b:
+                    if ins and node(f) == b:
                         s += float(net.res_line_3ph.at[l, col % (ph, "_from")])
-                    if ins and t == b:
+                    if ins and node(t) == b:
                         s += float(net.res_line_3ph.at[l, col % (ph, "_to")])
-                if pl["trafo"] == "on" and b == pl["thv"]:
+                if pl["trafo"] == "on" and b == node(pl["thv"]):
                     s += float(net.res_trafo_3ph.at[0, col % (ph, "_hv")])
-                if pl["trafo"] == "on" and b == pl["tlv"]:
+                if pl["trafo"] == "on" and b == node(pl["tlv"]):
                     s += float(net.res_trafo_3ph.at[0, col % (ph, "_lv")])
                 if s == s:
                     worst = max(worst, abs(s))
@@ -212,13 +231,14 @@ def observe(case):
     return obs
 
 
-def units(tier, seed, k):
+def units(tier, seed, k, level):
     """Level -> float table of one case: the base table, in the thorough tier with a seeded +-30 % jitter per bus."""
+    up, uq = [UNIT[lv][0] for lv in level], [UNIT[lv][1] for lv in level]
     if tier != "thorough":
-        return list(UNITP), list(UNITQ)
+        return up, uq
     rng = random.Random("%d|%d" % (seed, k))
     jit = lambda u: max(2, 2 * int(round(u * (0.7 + 0.6 * rng.random()) / 2.0)))   # noqa: E731
-    return [jit(u) for u in UNITP], [jit(u) for u in UNITQ]
+    return [jit(u) for u in up], [jit(u) for u in uq]
 
 
 def model_cases(tier, seed):
@@ -238,13 +258,36 @@ def model_cases(tier, seed):
     final.sort(key=lambda s: repr(jsonable(s["cfg"])))
     cases = []
     for k, s in enumerate(final):
-        up, uq = units(tier, seed, k)
+        up, uq = units(tier, seed, k, jsonable(s["plant"])["level"])
         cases.append({"cfg": jsonable(s["cfg"]), "plant": jsonable(s["plant"]), "rows": jsonable(s["rows"]),
                       "unitp": up, "unitq": uq,
                       "meta": {"stage": s["stage"], "class": s["req"]["class"], "netbal": s["req"]["netbal"],
                                "checked": s["req"]["checked"], "slackload": s["req"]["slackload"],
+                               "fusedload": s["req"]["fusedload"], "family": family(jsonable(s["cfg"])),
                                "perphase": sorted(s["req"]["perphase"]), "sup": sorted(s["sup"])}})
-    return r, cases
+    skipped = 0
+    if tier == "quick":
+        groups = {}
+        for c in cases:
+            if c["meta"]["family"] != "A":
+                groups.setdefault((c["meta"]["family"], repr(c["cfg"]["cpl"]), repr(c["cfg"]["egs"]), c["cfg"]["topo"]),
+                                  []).append(id(c))
+        keep = set()
+        for g in sorted(groups):
+            ids = groups[g]
+            keep.update(random.Random("%d|%s" % (seed, g)).sample(ids, min(len(ids), QUICK_PER_GROUP[g[0]])))
+        n = len(cases)
+        cases = [c for c in cases if c["meta"]["family"] == "A" or id(c) in keep]
+        skipped = n - len(cases)
+    return r, cases, skipped
+
+
+def family(cfg):
+    """A = one ext_grid on bus 1, no busbar section (the space of the first version of this check); B = busbar section;
+    C = several ext_grid rows."""
+    if cfg["cpl"]["state"] != "none":
+        return "B"
+    return "A" if len(cfg["egs"]) == 1 else "C"
 
 
 SLACK_CLAUSES = ("C11_BalancedThirdsExtGrid", "C11_BalancedThirdsBus_Slack", "C11_NodalBalance_Slack")
@@ -253,8 +296,10 @@ SLACK_CLAUSES = ("C11_BalancedThirdsExtGrid", "C11_BalancedThirdsBus_Slack", "C1
 def feature(name, c):
     """Structural feature class of a violated clause (for the finding key only)."""
     if name in SLACK_CLAUSES:
-        return "element_on_ext_grid_bus" if c["meta"]["slackload"] else "no_element_on_ext_grid_bus"
-    return "%s_%s" % (c["cfg"]["vg"], c["meta"]["class"])
+        fam = "_several_ext_grids" if c["meta"]["family"] == "C" else ""
+        return ("element_on_ext_grid_bus" if c["meta"]["slackload"] else "no_element_on_ext_grid_bus") + fam
+    fam = {"A": "", "B": "_busbar_section_%s" % c["cfg"]["cpl"]["state"], "C": "_several_ext_grids"}[c["meta"]["family"]]
+    return "%s_%s%s" % (c["cfg"]["vg"], c["meta"]["class"], fam)
 
 
 def run(tier, seed, replay=None):
@@ -264,10 +309,10 @@ def run(tier, seed, replay=None):
     if replay:
         keep = ("cfg", "plant", "rows", "unitp", "unitq", "meta")
         todo = [{k: replay["case"][k] for k in keep}]
-        mstates = mtrans = 0
+        mstates = mtrans = skipped = 0
         mviol = []
     else:
-        r, todo = model_cases(tier, seed)
+        r, todo, skipped = model_cases(tier, seed)
         mstates, mtrans, mviol = r.distinct, r.transitions, r.violations
     for name, st, raw in mviol:
         v.divergence("model-level: %s violated on the spec alone" % name, None)
@@ -295,10 +340,19 @@ def run(tier, seed, replay=None):
     vdev = max([c["diag"].get("vdev", 0) for c in solved] or [0]) / 1e6
     v.coverage = {
         "states": mstates + st["states"], "transitions": mtrans + st["generated"],
-        "traces_validated_against_impl": len(cases), "evaluations": len(cases), "exhaustive": not replay,
+        "traces_validated_against_impl": len(cases), "evaluations": len(cases),
+        "exhaustive": not replay and skipped == 0,
+        "model_configurations_not_instantiated": skipped,
+        "instantiated_by_family": {f: sum(1 for c in cases if c["meta"]["family"] == f) for f in "ABC"},
+        "fused_buses_both_carrying_live_elements": sum(1 for c in solved if c["meta"]["fusedload"]),
+        "several_ext_grids_converged": sum(1 for c in solved if len(c["cfg"]["egs"]) > 1),
+        "ext_grid_rows_not_in_ascending_bus_order": sum(
+            1 for c in solved if [g["bus"] for g in c["cfg"]["egs"]] != sorted(g["bus"] for g in c["cfg"]["egs"])),
         "distinct_nontrivial": len({repr(c["cfg"]) for c in nontriv}),
-        "rule": "every configuration of Phase3.tla for the tier's constants (vector group x topology x up to 2 elements "
-                "with kind/bus/connection/level pattern/modifier, slot permutations removed); each is solved by "
+        "rule": "configurations of Phase3.tla for the tier's constants (vector group x topology x up to 2 elements "
+                "with kind/bus/connection/level pattern/modifier, slot permutations removed; family B: busbar section behind "
+                "a closed/open bus-bus switch; family C: several ext_grid rows in any table order) -- all of them in the "
+                "thorough tier, all of family A and a seeded sample per arrangement of B / C in the quick tier; each is solved by "
                 "runpp_3ph and runpp; non-trivial = distinct configuration with a documented vector group whose "
                 "runpp_3ph converged and that has at least one live (in-service, supplied) element",
         "balanced_converged": len(bal), "unbalanced_converged": len(unb),
@@ -311,7 +365,7 @@ def run(tier, seed, replay=None):
         "balanced_by_cancellation_not_all_symmetric": sum(1 for c in unb if c["meta"]["netbal"]),
         "cases_with_bus_exempt_from_per_phase_balance_delta": sum(
             1 for c in unb if len(c["meta"]["perphase"]) < len(c["meta"]["sup"])),
-        "cases_with_unsupplied_bus": sum(1 for c in solved if len(c["meta"]["sup"]) < 4),
+        "cases_with_unsupplied_bus": sum(1 for c in solved if len(c["meta"]["sup"]) < len(c["plant"]["level"])),
         "max_abs_vm_minus_1": round(vdev, 4),
         "max_per_phase_nodal_residual_mw_non_slack": max([c["diag"].get("resid_nano", 0) for c in solved] or [0]) / 1e9,
         "wall_model_tlc_s": round(t1 - t0, 1), "wall_implementation_s": round(t2 - t1, 1),
@@ -321,8 +375,10 @@ def run(tier, seed, replay=None):
                     for c in cases[::max(1, len(cases) // 3)][:3]],
     }
     v.assumptions = [
-        "template of 4 buses / 3 lines / one 20/0.4 kV transformer, one ext_grid; at most 2 PQ elements; gens, shunts, "
-        "storage, wards, switches, trafo3w and load `type` values other than wye/delta are not enumerated",
+        "template of 4 buses / 3 lines / one 20/0.4 kV transformer, optionally a 5th bus behind one bus-bus switch, one to "
+        "three ext_grid rows on the 20 kV buses; at most 2 PQ elements; gens, shunts, storage, wards, line / trafo switches, "
+        "trafo3w and load `type` values other than wye/delta are not enumerated; a busbar section and several ext_grids are "
+        "not combined with each other nor with the non-reference vector groups",
         "delta-connected elements: per-phase balance is required only under all-symmetric loading (their p_a/p_b/p_c "
         "are branch powers), the three-phase sum always",
         "vector groups outside the documented set {Dyn, YNyn, Yzn}: only the accept/reject decision is bound",
